@@ -24,8 +24,10 @@ from sim import shrink  # noqa: E402
 from sim.engine import H  # noqa: E402
 
 KNOWN_FILE = os.path.join(HERE, "known_findings.json")
-REPLAY_DIR = os.path.join(HERE, "replays")
-EVIDENCE_DIR = os.path.join(HERE, "evidence")
+# (experiments against scratch copies of the repository redirect these two, so that they
+#  never touch the committed replays / the evidence of the real tree)
+REPLAY_DIR = os.environ.get("VERIF_REPLAY_DIR") or os.path.join(HERE, "replays")
+EVIDENCE_DIR = os.environ.get("VERIF_EVIDENCE_DIR") or os.path.join(HERE, "evidence")
 
 REAL_COMPONENTS = ["processscheduler.* (working tree of /repo)", "z3 engine 4.12 (single-threaded, real check()/model()/unsat_core())",
                    "pydantic", "pandas (to_df/to_csv)", "xlsxwriter (to_excel)"]
